@@ -375,13 +375,9 @@ impl QueryEngine {
     /// Extract time range from a SQL query by analyzing the logical plan
     pub async fn extract_time_range(&self, sql: &str) -> Result<TimeRange> {
         let df = self.ctx.sql(sql).await?;
-        let plan = df.logical_plan();
 
-        // Extract time predicates from the plan
-        let mut min_time: Option<i64> = None;
-        let mut max_time: Option<i64> = None;
-
-        Self::extract_time_bounds(plan, &mut min_time, &mut max_time);
+        // Bounds every selected row must satisfy (None = unbounded on that side)
+        let (min_time, max_time) = Self::extract_time_bounds(df.logical_plan());
 
         // Default to last hour if no time bounds found
         let now = chrono::Utc::now().timestamp_nanos_opt().unwrap_or(0);
@@ -393,92 +389,180 @@ impl QueryEngine {
         ))
     }
 
-    /// Recursively extract time bounds from a logical plan
-    fn extract_time_bounds(
-        plan: &LogicalPlan,
-        min_time: &mut Option<i64>,
-        max_time: &mut Option<i64>,
-    ) {
+    /// Time bounds implied by a logical plan: every row the plan reads from the table and
+    /// that can contribute to the result has `min <= timestamp <= max`.
+    fn extract_time_bounds(plan: &LogicalPlan) -> (Option<i64>, Option<i64>) {
         match plan {
-            LogicalPlan::Filter(filter) => {
-                Self::extract_time_from_expr(&filter.predicate, min_time, max_time);
-                Self::extract_time_bounds(&filter.input, min_time, max_time);
+            LogicalPlan::Filter(filter) => Self::intersect_bounds(
+                Self::extract_time_from_expr(&Self::simplify_predicate(
+                    &filter.predicate,
+                    filter.input.schema(),
+                )),
+                Self::extract_time_bounds(&filter.input),
+            ),
+            LogicalPlan::TableScan(scan) => scan
+                .filters
+                .iter()
+                .fold((None, None), |acc, filter| {
+                    Self::intersect_bounds(acc, Self::extract_time_from_expr(filter))
+                }),
+            other => {
+                // The union of what the inputs need covers what this node needs.
+                let mut inputs = other.inputs().into_iter();
+                match inputs.next() {
+                    None => (None, None),
+                    Some(first) => inputs.fold(Self::extract_time_bounds(first), |acc, input| {
+                        Self::hull_bounds(acc, Self::extract_time_bounds(input))
+                    }),
+                }
             }
-            LogicalPlan::Projection(proj) => {
-                Self::extract_time_bounds(&proj.input, min_time, max_time);
-            }
-            LogicalPlan::Sort(sort) => {
-                Self::extract_time_bounds(&sort.input, min_time, max_time);
-            }
-            LogicalPlan::Limit(limit) => {
-                Self::extract_time_bounds(&limit.input, min_time, max_time);
-            }
-            LogicalPlan::Aggregate(agg) => {
-                Self::extract_time_bounds(&agg.input, min_time, max_time);
-            }
-            _ => {}
         }
     }
 
-    /// Extract time bounds from a filter expression
-    fn extract_time_from_expr(expr: &Expr, min_time: &mut Option<i64>, max_time: &mut Option<i64>) {
+    /// Coerce and constant-fold a predicate, so that `TIMESTAMP '...'`, casts of literals and
+    /// `now() - interval ...` become plain literals and negated comparisons are rewritten.
+    fn simplify_predicate(predicate: &Expr, schema: &datafusion::common::DFSchemaRef) -> Expr {
+        use datafusion::logical_expr::execution_props::ExecutionProps;
+        use datafusion::optimizer::simplify_expressions::{ExprSimplifier, SimplifyContext};
+
+        let props = ExecutionProps::new().with_query_execution_start_time(chrono::Utc::now());
+        let simplifier =
+            ExprSimplifier::new(SimplifyContext::new(&props).with_schema(Arc::clone(schema)));
+        simplifier
+            .coerce(predicate.clone(), schema)
+            .and_then(|coerced| simplifier.simplify(coerced))
+            .unwrap_or_else(|_| predicate.clone())
+    }
+
+    /// Both constraints hold: the tighter bound wins on each side.
+    fn intersect_bounds(
+        a: (Option<i64>, Option<i64>),
+        b: (Option<i64>, Option<i64>),
+    ) -> (Option<i64>, Option<i64>) {
+        let min = match (a.0, b.0) {
+            (Some(x), Some(y)) => Some(x.max(y)),
+            (x, y) => x.or(y),
+        };
+        let max = match (a.1, b.1) {
+            (Some(x), Some(y)) => Some(x.min(y)),
+            (x, y) => x.or(y),
+        };
+        (min, max)
+    }
+
+    /// Either constraint may hold: a side is bounded only if it is bounded in both.
+    fn hull_bounds(
+        a: (Option<i64>, Option<i64>),
+        b: (Option<i64>, Option<i64>),
+    ) -> (Option<i64>, Option<i64>) {
+        let min = match (a.0, b.0) {
+            (Some(x), Some(y)) => Some(x.min(y)),
+            _ => None,
+        };
+        let max = match (a.1, b.1) {
+            (Some(x), Some(y)) => Some(x.max(y)),
+            _ => None,
+        };
+        (min, max)
+    }
+
+    /// Whether an expression is the timestamp column (possibly wrapped in casts)
+    fn is_timestamp_column(expr: &Expr) -> bool {
         match expr {
-            Expr::BinaryExpr(binary) => {
-                // Check if this is a timestamp comparison
-                if let Expr::Column(col) = binary.left.as_ref() {
-                    if col.name == "timestamp" || col.name == "time" {
+            Expr::Column(col) => col.name == "timestamp" || col.name == "time",
+            Expr::Cast(cast) => Self::is_timestamp_column(&cast.expr),
+            Expr::TryCast(cast) => Self::is_timestamp_column(&cast.expr),
+            _ => false,
+        }
+    }
+
+    /// Bounds implied by `timestamp <op> value`
+    fn bounds_of_comparison(op: Operator, value: i64) -> (Option<i64>, Option<i64>) {
+        match op {
+            Operator::Gt | Operator::GtEq => (Some(value), None),
+            Operator::Lt | Operator::LtEq => (None, Some(value)),
+            Operator::Eq => (Some(value), Some(value)),
+            _ => (None, None),
+        }
+    }
+
+    /// Extract time bounds from a filter expression: if the expression is true for a row,
+    /// the row's timestamp lies within the returned bounds (None = unbounded).
+    fn extract_time_from_expr(expr: &Expr) -> (Option<i64>, Option<i64>) {
+        match expr {
+            Expr::BinaryExpr(binary) => match binary.op {
+                Operator::And => Self::intersect_bounds(
+                    Self::extract_time_from_expr(&binary.left),
+                    Self::extract_time_from_expr(&binary.right),
+                ),
+                Operator::Or => Self::hull_bounds(
+                    Self::extract_time_from_expr(&binary.left),
+                    Self::extract_time_from_expr(&binary.right),
+                ),
+                op => {
+                    if Self::is_timestamp_column(&binary.left) {
                         if let Some(value) = Self::extract_timestamp_value(&binary.right) {
-                            match binary.op {
-                                Operator::Gt | Operator::GtEq => {
-                                    *min_time = Some(min_time.unwrap_or(i64::MAX).min(value));
-                                }
-                                Operator::Lt | Operator::LtEq => {
-                                    *max_time = Some(max_time.unwrap_or(i64::MIN).max(value));
-                                }
-                                Operator::Eq => {
-                                    *min_time = Some(value);
-                                    *max_time = Some(value);
-                                }
-                                _ => {}
-                            }
+                            return Self::bounds_of_comparison(op, value);
                         }
                     }
-                }
-                // Handle reversed comparison (literal on left)
-                if let Expr::Column(col) = binary.right.as_ref() {
-                    if col.name == "timestamp" || col.name == "time" {
-                        if let Some(value) = Self::extract_timestamp_value(&binary.left) {
-                            match binary.op {
-                                Operator::Lt | Operator::LtEq => {
-                                    *min_time = Some(min_time.unwrap_or(i64::MAX).min(value));
-                                }
-                                Operator::Gt | Operator::GtEq => {
-                                    *max_time = Some(max_time.unwrap_or(i64::MIN).max(value));
-                                }
-                                _ => {}
-                            }
+                    // Handle reversed comparison (literal on left)
+                    if Self::is_timestamp_column(&binary.right) {
+                        if let (Some(value), Some(swapped)) =
+                            (Self::extract_timestamp_value(&binary.left), op.swap())
+                        {
+                            return Self::bounds_of_comparison(swapped, value);
                         }
                     }
+                    (None, None)
                 }
-                // Recurse into AND/OR expressions
-                if matches!(binary.op, Operator::And | Operator::Or) {
-                    Self::extract_time_from_expr(&binary.left, min_time, max_time);
-                    Self::extract_time_from_expr(&binary.right, min_time, max_time);
+            },
+            Expr::Between(between) if !between.negated => {
+                if Self::is_timestamp_column(&between.expr) {
+                    (
+                        Self::extract_timestamp_value(&between.low),
+                        Self::extract_timestamp_value(&between.high),
+                    )
+                } else {
+                    (None, None)
                 }
             }
-            Expr::Between(between) => {
-                if let Expr::Column(col) = between.expr.as_ref() {
-                    if col.name == "timestamp" || col.name == "time" {
-                        if let Some(low) = Self::extract_timestamp_value(&between.low) {
-                            *min_time = Some(min_time.unwrap_or(i64::MAX).min(low));
-                        }
-                        if let Some(high) = Self::extract_timestamp_value(&between.high) {
-                            *max_time = Some(max_time.unwrap_or(i64::MIN).max(high));
-                        }
-                    }
+            Expr::InList(in_list) if !in_list.negated => {
+                if !Self::is_timestamp_column(&in_list.expr) {
+                    return (None, None);
+                }
+                let values: Option<Vec<i64>> = in_list
+                    .list
+                    .iter()
+                    .map(Self::extract_timestamp_value)
+                    .collect();
+                match values {
+                    Some(values) if !values.is_empty() => (
+                        values.iter().copied().min(),
+                        values.iter().copied().max(),
+                    ),
+                    _ => (None, None),
                 }
             }
-            _ => {}
+            Expr::Not(inner) => match inner.as_ref() {
+                // NOT (timestamp <op> v) is the comparison with the negated operator
+                Expr::BinaryExpr(binary) => match binary.op.negate() {
+                    Some(negated)
+                        if !matches!(binary.op, Operator::And | Operator::Or) =>
+                    {
+                        Self::extract_time_from_expr(&Expr::BinaryExpr(
+                            datafusion::logical_expr::BinaryExpr::new(
+                                binary.left.clone(),
+                                negated,
+                                binary.right.clone(),
+                            ),
+                        ))
+                    }
+                    _ => (None, None),
+                },
+                Expr::Not(double) => Self::extract_time_from_expr(double),
+                _ => (None, None),
+            },
+            _ => (None, None),
         }
     }
 
